@@ -38,9 +38,13 @@ class Shape:
     """layers: directory of each layer; mainname; ddirs: drop-in directories (relative to the layer dir);
     call(h, cb): script line reading the tree into handle h."""
 
-    def __init__(self, name, nlay=3):
+    def __init__(self, name, nlay=3, opts=""):
         self.name = name
         self.nlay = nlay
+        self.opts = opts          # further items of the option string (JOIN_SAME_ENTRIES=1, PYTHON_STYLE=1): no effect on these trees
+
+    def optx(self, s):
+        return hx(self.opts + ";" + s if self.opts else s)
 
     def layout(self, R):
         n = self.name
@@ -52,6 +56,8 @@ class Shape:
             return flat3, "cfg.conf", ["cfg.conf.d"]
         if n == "nosuffix":
             return std3, "cfg", ["cfg.d"]
+        if n == "nosuffix2":
+            return [R + "/usr/etc", R + "/etc"], "cfg", ["cfg.d"]
         if n == "noname":
             return flat3, None, ["prj.d"]
         if n == "parsing_dirs":
@@ -96,29 +102,29 @@ class Shape:
         c = "cb" if cb else ""
         dc = "%s %s" % (hx(delim), hx(comment))
         if n == "std":
-            return ["newopt %d %s" % (h, hx("ROOT_PREFIX=" + R)),
+            return ["newopt %d %s" % (h, self.optx("ROOT_PREFIX=" + R)),
                     "readconfig%s %d %s %s %s %s %s" % (c, h, hx("prj"), hx("/usr/lib"), hx("cfg"), hx("conf"), dc)]
         if n == "dotsuffix":
-            return ["newopt %d %s" % (h, hx("ROOT_PREFIX=" + R)),
+            return ["newopt %d %s" % (h, self.optx("ROOT_PREFIX=" + R)),
                     "readconfig%s %d %s %s %s %s %s" % (c, h, hx("prj"), hx("/usr/lib"), hx("cfg"), hx(".conf"), dc)]
         if n == "noproject":
-            return ["newopt %d %s" % (h, hx("ROOT_PREFIX=" + R)),
+            return ["newopt %d %s" % (h, self.optx("ROOT_PREFIX=" + R)),
                     "readconfig%s %d - %s %s %s %s" % (c, h, hx("/usr/lib"), hx("cfg"), hx("conf"), dc)]
         if n == "nosuffix":
-            return ["newopt %d %s" % (h, hx("ROOT_PREFIX=" + R)),
+            return ["newopt %d %s" % (h, self.optx("ROOT_PREFIX=" + R)),
                     "readconfig%s %d %s %s %s - %s" % (c, h, hx("prj"), hx("/usr/lib"), hx("cfg"), dc)]
         if n == "noname":
-            return ["newopt %d %s" % (h, hx("ROOT_PREFIX=" + R)),
+            return ["newopt %d %s" % (h, self.optx("ROOT_PREFIX=" + R)),
                     "readconfig%s %d %s %s - %s %s" % (c, h, hx("prj"), hx("/usr/lib"), hx("conf"), dc)]
         if n == "parsing_dirs":
             dirs = ":".join(R + "/p%d" % i for i in range(1, self.nlay + 1))
-            return ["newopt %d %s" % (h, hx("PARSING_DIRS=" + dirs)),
+            return ["newopt %d %s" % (h, self.optx("PARSING_DIRS=" + dirs)),
                     "readconfig%s %d %s %s %s %s %s" % (c, h, hx("prj"), hx("/usr/lib"), hx("cfg"), hx("conf"), dc)]
         if n in ("config_dirs", "config_dirs_over_global"):
-            return ["newopt %d %s" % (h, hx("CONFIG_DIRS=.conf.d:.d;ROOT_PREFIX=" + R)),
+            return ["newopt %d %s" % (h, self.optx("CONFIG_DIRS=.conf.d:.d;ROOT_PREFIX=" + R)),
                     "readconfig%s %d %s %s %s %s %s" % (c, h, hx("prj"), hx("/usr/lib"), hx("cfg"), hx("conf"), dc)]
         if n == "set_conf_dirs":
-            return ["newopt %d %s" % (h, hx("ROOT_PREFIX=" + R)),
+            return ["newopt %d %s" % (h, self.optx("ROOT_PREFIX=" + R)),
                     "readconfig%s %d %s %s %s %s %s" % (c, h, hx("prj"), hx("/usr/lib"), hx("cfg"), hx("conf"), dc)]
         if n in ("readdirs", "readdirscb"):
             return ["readdirs%s %d %s %s %s %s %s" % ("cb" if (cb or n == "readdirscb") else "", h, hx(R + "/usr/etc"), hx(R + "/etc"), hx("cfg"), hx("conf"), dc)]
@@ -129,7 +135,7 @@ class Shape:
         if n == "readhistcb_rel":
             return ["readhistcb %d %s %s %s %s %s" % (h, hx("usr/etc"), hx("etc"), hx("cfg"), hx(".conf"), dc)]
         if n in ("rc2", "rc2cb"):
-            return ["newopt %d %s" % (h, hx("PARSING_DIRS=%s/usr/etc:%s/etc" % (R, R))),
+            return ["newopt %d %s" % (h, self.optx("PARSING_DIRS=%s/usr/etc:%s/etc" % (R, R))),
                     "readconfig%s %d %s - %s %s %s" % ("cb" if n == "rc2cb" else "", h, hx("prj"), hx("cfg"), hx("conf"), dc)]
         if n == "readdirs_nulldist":
             return ["readdirs%s %d - %s %s %s %s" % (c, h, hx(R + "/etc"), hx("cfg"), hx("conf"), dc)]
@@ -743,9 +749,15 @@ def check_c12(exe, tier, seed, verdict):
     # NULL / empty directory arguments
     ok += check_null_dirs(exe, verdict)
     ok += check_confdirs(exe, rnd.sample(recs, min(len(recs), 300)), verdict)
+    # suffix absent / empty: every directory entry counts (names with and without ".conf", dot files)
+    rns, recsns, _ = tree_export(2, [1, 6, 7, 8], 4, ["bb", "hs"], invariants=("HistoryFolds",))
+    if tier == "quick" and len(recsns) > 600:
+        recsns = rnd.sample(recsns, 600)
+    nns = check_nosuffix_fold(exe, recsns, verdict)
+    ok += nns
     cov = {"states": r.distinct, "transitions": r.generated, "traces_validated_against_impl": ok,
            "evaluations": len(recs) * 7, "distinct_nontrivial": nn,
-           "rule": "every 2-layer tree (main x4 per layer, every subset of 3 names per layer, content shapes) exported by TLC (%d trees, %d replayed): econf_readDirs, econf_readDirsWithCallback, econf_readConfig(+WithCallback) with PARSING_DIRS=<the same two directories>, econf_readDirsHistory(+WithCallback) and econf_readDirs under econf_set_conf_dirs are all run on the SAME tree and each compared with the specification's expectation (so with each other); history members: path -> file identity, own content, order; model invariant HistoryFolds: folding the history with masking gives the result. non-trivial = >= 2 files consulted and all seven calls compared." % (total, len(recs)),
+           "rule": "every 2-layer tree (main x4 per layer, every subset of 3 names per layer, content shapes) exported by TLC (%d trees, %d replayed): econf_readDirs, econf_readDirsWithCallback, econf_readConfig(+WithCallback) with PARSING_DIRS=<the same two directories>, econf_readDirsHistory(+WithCallback) and econf_readDirs under econf_set_conf_dirs are all run on the SAME tree and each compared with the specification's expectation (so with each other); history members: path -> file identity, own content, order; model invariant HistoryFolds: folding the history with masking gives the result. The same under a non-default process-wide drop-in directory list, and with the suffix NULL / empty (every directory entry counts; %d trees over the names .conf, a.conf, a.conf.bak, conf): all merged-result entry points agree, both history variants agree and the delivered history folded with masking (Trace_Layers!THistFold) gives the result. non-trivial = >= 2 files consulted and all seven calls compared." % (total, len(recs), nns),
            "samples": [{"tree": tree_text({"main": x["main"], "drop": x["drop"], "shp": x["shp"]}), "history": x["hist"]} for x in recs[100:101]],
            "exhaustive": tier == "thorough",
            "trusted_base": ["TLC 1.8.0", "gcc ASan/UBSan", "drv.c"]}
@@ -826,6 +838,79 @@ def check_confdirs(exe, recs, verdict):
     return len(events) - len(mism)
 
 
+def check_nosuffix_fold(exe, recs, verdict):
+    """C12 with the suffix absent (NULL) or empty: the main file is <name>, the drop-in directory <name>.d, and EVERY
+    entry of that directory counts.  Merged-result entry points must agree, both history variants must agree, and the
+    history folded with masking (Trace_Layers!THistFold) must give that result."""
+    cases = []
+    for i, x in enumerate(recs):
+        R = ROOT + "/ns%d" % (i % 16)
+        t = {"main": x["main"], "drop": x["drop"], "shp": x["shp"]}
+        sh = Shape("nosuffix2", 2)
+        s, paths = materialise(t, sh, R)
+        sfx = "-" if i % 2 else "x"
+        u, e = hx(R + "/usr/etc"), hx(R + "/etc")
+        sc = list(s)
+        h = 1
+        for call in ("readdirs %d %s %s %s %s x3d x23" % (h, u, e, hx("cfg"), sfx), "readdirscb %d %s %s %s %s x3d x23" % (h + 10, u, e, hx("cfg"), sfx)):
+            hh = int(call.split()[1])
+            sc += ["cbreset", call, "dump %d" % hh, "free %d" % hh]
+        for hh, cb in ((21, ""), (31, "cb")):
+            sc += ["cbreset", "newopt %d %s" % (hh, hx("PARSING_DIRS=%s/usr/etc:%s/etc" % (R, R))),
+                   "readconfig%s %d %s - %s %s x3d x23" % (cb, hh, hx("prj"), hx("cfg"), sfx), "dump %d" % hh, "free %d" % hh]
+        for hh, cb in ((41, ""), (61, "cb")):
+            sc += ["cbreset", "readhist%s %d %s %s %s %s x3d x23" % (cb, hh, u, e, hx("cfg"), sfx)] + ["dump %d" % k for k in range(hh, hh + 14)] + ["free %d" % k for k in range(hh, hh + 14)]
+        sc += ["cbreset"]
+        cases.append((i, sc))
+    res = core.run_cases(exe, cases)
+    events = []
+    idx = []
+    for i, x in enumerate(recs):
+        out = res.get(i)
+        t = {"main": x["main"], "drop": x["drop"], "shp": x["shp"]}
+        if out is None or out["crash"]:
+            verdict.violation("C12:nosuffix:crash", {"kind": "tree", "tree": t, "crash": (out or {}).get("crash")}, "entry points without suffix crashed on %s\n%s" % (tree_text(t), (out or {}).get("crash", "")[:800]))
+            continue
+        ev = out["ev"]
+        reads = [(j, e) for j, e in enumerate(ev) if e["op"].startswith("read")]
+        rcs = [e["rc"] for _, e in reads]
+        if len(set(rcs)) != 1:
+            verdict.violation("C12:nosuffix:rc", {"kind": "tree", "tree": t, "rcs": rcs}, "entry points disagree when no suffix is given on %s: %s" % (tree_text(t), rcs))
+            continue
+        if rcs[0] != "ECONF_SUCCESS":
+            continue
+        results = []
+        hists = []
+        for (j, rd) in reads:
+            dumps = []
+            for e in ev[j + 1:]:
+                if e["op"] == "dump":
+                    dumps.append(e)
+                elif e["op"].startswith("read"):
+                    break
+            if rd["op"].startswith("readhist"):
+                hists.append([{"name": codes(os.path.basename(d["st"]["path"])), "ents": listing_of_dump(d) or []} for d in dumps[:rd["n"]] if d["st"]])
+            else:
+                results.append(sorted_ents(listing_of_dump(dumps[0]) or []))
+        events.append({"e": "histfold", "hist": hists[0], "results": results, "hist2_same": hists[0] == hists[1]})
+        idx.append(i)
+    if not events:
+        return 0
+    okk, tr, _ = core.validate_trace("Trace_Layers", os.path.join(core.SPEC, "Trace_Layers.cfg"), events, timeout=1200)
+    mism = [x for x in tr.json_lines() if "mismatch" in x]
+    if not okk and not mism:
+        raise core.ToolFailure("Trace_Layers (histfold, no suffix) did not consume the trace:\n" + tr.out[-2000:])
+    for m in mism[:20]:
+        i = idx[m["mismatch"] - 1]
+        x = recs[i]
+        e = events[m["mismatch"] - 1]
+        t = {"main": x["main"], "drop": x["drop"], "shp": x["shp"]}
+        verdict.violation("C12:nosuffix:histfold", {"kind": "tree", "tree": t, "event": e, "spec": m.get("spec")},
+                          "suffix %s on %s: history (%d members, both variants equal: %s) folded with masking gives %s\nmerged results: %s" % (
+                              "NULL" if i % 2 else "empty", tree_text(t), len(e["hist"]), e["hist2_same"], show_ents(m["spec"]["folded"]), [show_ents(r) for r in e["results"]][:2]))
+    return len(events) - len(mism)
+
+
 def check_null_dirs(exe, verdict):
     R = ROOT + "/nd"
     s = ["rm %s" % hx(R), "file %s %s" % (hx(R + "/etc/cfg.conf"), hx("K=1\n")), "file %s %s" % (hx(R + "/etc/cfg.conf.d/a.conf"), hx("J=2\n")),
@@ -875,7 +960,8 @@ def c13_tree_cases(exe, tier, seed, verdict):
             ent = rnd.choice(["std", "stdcb", "readdirs3"]) if True else "std"
             i = len(cases)
             R = ROOT + "/b%d" % (i % 16)
-            shape = Shape("std")
+            # the parsing options change nothing about a malformed line: with each of them the same code and location
+            shape = Shape("std", opts=["", "JOIN_SAME_ENTRIES=1", "PYTHON_STYLE=1", "JOIN_SAME_ENTRIES=0", "JOIN_SAME_ENTRIES=1;PYTHON_STYLE=1"][i % 5])
             s, paths = materialise(t, shape, R, contents={f: content})
             s += shape.call(1, R, cb=(ent == "stdcb")) + ["errloc", "dump 1", "free 1"]
             cases.append((i, s))
